@@ -253,3 +253,118 @@ Proof.
   destruct (flatten_both fuel env gs) as [[fl tr]|] eqn:Hb; [|discriminate]. cbn in Hfl. inversion Hfl; subst fl.
   apply (C14_flatten_any_depth_gen fuel env sk fname fname o pending ts s s im ic im ic gs flat tr Hpg Hl Hb (sim_refl s)).
 Qed.
+
+(* ---------- the include tree mirrors the include structure ---------- *)
+Lemma apply_stmts_noinc_outputs : forall env sk fname inc stmts s im ic s1 im1 ic1,
+  forallb (fun st => negb (is_include st)) stmts = true ->
+  apply_stmts env sk fname inc stmts s im ic = (s1, SOk (im1, ic1)) ->
+  im1 = im ++ flat_map (stmt_imports env) stmts /\ ic1 = ic.
+Proof.
+  intros env sk fname inc stmts. induction stmts as [|st rest IH]; intros s im ic s1 im1 ic1 Hn H.
+  - cbn [apply_stmts] in H. inversion H. cbn [flat_map]. rewrite app_nil_r. auto.
+  - cbn [forallb] in Hn. apply andb_true_iff in Hn. destruct Hn as [Hst Hrest].
+    destruct st as [sc sel arg v line|sc sel line|m isf al line|v line]; cbn [apply_stmts] in H;
+      cbn [flat_map stmt_imports app].
+    + destruct (String.eqb arg "").
+      * destruct (bind s _ "gin.macro" "value" v (fname, line)) as [s0|e];
+          [eapply IH; eassumption|rewrite with_loc_SErr in H; discriminate].
+      * destruct (should_skip s sel sk); [eapply IH; eassumption|].
+        destruct (bind s sc sel arg v (fname, line)) as [s0|e];
+          [eapply IH; eassumption|rewrite with_loc_SErr in H; discriminate].
+    + destruct (should_skip s sel sk); [eapply IH; eassumption|].
+      destruct (sm_get_match (to_key sel) (t_reg s)) as [| |k [c|]]; try discriminate. eapply IH; eassumption.
+    + destruct (str_in m (e_modules env)).
+      * destruct (IH _ _ _ _ _ _ Hrest H) as [A B]. subst im1. rewrite <- app_assoc. auto.
+      * destruct (sk_truthy sk); [|discriminate]. cbn [app]. eapply IH; eassumption.
+    + cbn in Hst. discriminate.
+Qed.
+
+Lemma stmt_imports_strip : forall env st, stmt_imports env st = stmt_imports env (strip st).
+Proof. intros env [sc sel arg v line|sc sel line|m isf al line|v line]; reflexivity. Qed.
+
+(* on success: the returned imports are the caller's plus the importable modules of the file's OWN statements, and
+   the returned include list is the caller's plus one tree per top-level include, in order; each tree is
+   INode (name as written) (imports of that file's own statements) (trees of ITS includes) *)
+Theorem C14_tree_mirrors_includes : forall fuel env sk fname o pending ts s im ic gs flat trees s1 imR icR,
+  parse_groups fuel o pending ts = (gs, None) -> List.length gs < fuel ->
+  flatten_both fuel env gs = Some (flat, trees) ->
+  parse_tokens fuel env sk fname o pending ts s im ic = (s1, SOk (imR, icR)) ->
+  imR = im ++ imports_of env gs /\ icR = ic ++ trees.
+Proof.
+  induction fuel as [|f IH];
+    intros env sk fname o pending ts s im ic gs flat trees s1 imR icR Hpg Hl Hfl H; [lia|].
+  rewrite parse_tokens_S in H. rewrite parse_groups_S in Hpg.
+  destruct (parse_statement o pending ts) as [[[[stmts ts1] p1]|]|e] eqn:Hps.
+  - destruct (parse_groups f o p1 ts1) as [gs' e'] eqn:Hpg'. inversion Hpg; subst gs e'. clear Hpg.
+    cbn [List.length] in Hl. assert (Hl' : List.length gs' < f) by lia.
+    rewrite flatten_both_cons in Hfl.
+    destruct (flatten_both f env gs') as [[frest trest]|] eqn:Hfr; [|discriminate].
+    unfold imports_of. cbn [flat_map]. fold (imports_of env gs').
+    destruct (as_include stmts) as [[v line]|] eqn:Hai.
+    + apply as_include_some in Hai. subst stmts.
+      destruct (resolve_file env (str_of_value v)) as [[full gf]|] eqn:Hres; [|discriminate].
+      destruct (settle (f_tokens gf)) as [ts0|pe0] eqn:Hset; [|discriminate].
+      destruct (parse_groups f (f_oracle gf) false ts0) as [gs2 [pe2|]] eqn:Hpg2; [discriminate|].
+      destruct (Nat.ltb_spec (List.length gs2) f) as [Hl2|_]; [|discriminate].
+      destruct (flatten_both f env gs2) as [[f2 t2]|] eqn:Hf2; [|discriminate].
+      inversion Hfl; subst flat trees. clear Hfl.
+      rewrite resolve_group_other in H by (intros; discriminate). rewrite resolve_group_nil in H.
+      rewrite C14_include_step in H. unfold inc_of in H. rewrite Hres, Hset in H.
+      destruct (parse_tokens f env sk full (f_oracle gf) false ts0 s [] []) as [s2 r2] eqn:Hp2.
+      destruct r2 as [[im2 ic2]|e2]; cbv beta iota in H.
+      * destruct (IH env sk full (f_oracle gf) false ts0 s [] [] gs2 f2 t2 s2 im2 ic2 Hpg2 Hl2 Hf2 Hp2) as [B1 B2].
+        cbn [app] in B1, B2. subst im2 ic2.
+        destruct (IH env sk fname o p1 ts1 s2 im (ic ++ [INode (str_of_value v) (imports_of env gs2) t2])
+                     gs' frest trest s1 imR icR Hpg' Hl' Hfr H) as [C1 C2].
+        subst imR icR. cbn [flat_map stmt_imports app]. rewrite <- app_assoc. auto.
+      * rewrite with_loc_SErr in H. discriminate.
+    + destruct (forallb (fun st => negb (is_include st)) stmts) eqn:Hn; [|discriminate].
+      inversion Hfl; subst flat trees. clear Hfl.
+      destruct (resolve_group s sk fname stmts) as [a|e] eqn:Ra; [|discriminate].
+      assert (Ha : forallb (fun st => negb (is_include st)) a = true)
+        by (rewrite (resolve_group_noinc _ _ _ _ _ Ra); exact Hn).
+      destruct (apply_stmts env sk fname (inc_of f env sk) a s im ic) as [s0 r0] eqn:Hap.
+      destruct r0 as [[im0 ic0]|e0]; [|discriminate].
+      destruct (apply_stmts_noinc_outputs _ _ _ _ _ _ _ _ _ _ _ Ha Hap) as [B1 B2]. subst im0 ic0.
+      rewrite (strip_flat_map _ (stmt_imports env) (stmt_imports_strip env) a stmts
+                 (resolve_group_strip _ _ _ _ _ Ra)) in H.
+      destruct (IH env sk fname o p1 ts1 s0 _ ic gs' frest trees s1 imR icR Hpg' Hl' Hfr H) as [C1 C2].
+      subst imR icR. rewrite <- app_assoc. auto.
+  - inversion Hpg; subst gs. rewrite flatten_both_nil in Hfl. inversion Hfl; subst flat trees.
+    inversion H; subst. cbn [imports_of flat_map]. rewrite !app_nil_r. auto.
+  - discriminate.
+Qed.
+
+(* ---------- the entry points ---------- *)
+Theorem C14_parse_config_any_depth : forall env sk fname g s ts gs flat trees,
+  settle (f_tokens g) = POk ts -> parse_groups 60 (f_oracle g) false ts = (gs, None) -> List.length gs < 60 ->
+  flatten_both 60 env gs = Some (flat, trees) ->
+  sim (fst (parse_config env sk fname g s)) (fst (consume env sk fname no_inc flat s [] [])) /\
+  res_sim (snd (parse_config env sk fname g s)) (snd (consume env sk fname no_inc flat s [] [])) /\
+  (forall s1 imR icR, parse_config env sk fname g s = (s1, SOk (imR, icR)) -> imR = imports_of env gs /\ icR = trees).
+Proof.
+  intros env sk fname g s ts gs flat trees Hset Hpg Hl Hfl. unfold parse_config. rewrite Hset.
+  destruct (C14_flatten_any_depth_gen 60 env sk fname fname (f_oracle g) false ts s s [] [] [] [] gs flat trees
+              Hpg Hl Hfl (sim_refl s)) as [A B].
+  split; [exact A|]. split; [exact B|].
+  intros s1 imR icR H. apply (C14_tree_mirrors_includes 60 env sk fname (f_oracle g) false ts s [] [] gs flat trees
+                                s1 imR icR Hpg Hl Hfl H).
+Qed.
+
+Theorem C14_parse_config_file_any_depth : forall env sk name full g s ts gs flat trees,
+  resolve_file env name = Some (full, g) ->
+  settle (f_tokens g) = POk ts -> parse_groups 60 (f_oracle g) false ts = (gs, None) -> List.length gs < 60 ->
+  flatten_both 60 env gs = Some (flat, trees) ->
+  sim (fst (parse_config_file env sk name s)) (fst (consume env sk full no_inc flat s [] [])) /\
+  res_sim (snd (parse_config_file env sk name s)) (snd (consume env sk full no_inc flat s [] [])) /\
+  (forall s1 t, parse_config_file env sk name s = (s1, SOk t) -> t = INode name (imports_of env gs) trees).
+Proof.
+  intros env sk name full g s ts gs flat trees Hres Hset Hpg Hl Hfl.
+  destruct (C14_parse_config_any_depth env sk full g s ts gs flat trees Hset Hpg Hl Hfl) as [A [B C]].
+  unfold parse_config_file. rewrite Hres.
+  destruct (parse_config env sk full g s) as [s' r]. cbn [fst snd] in A, B.
+  destruct r as [[imR icR]|e].
+  - cbn [fst snd]. split; [exact A|]. split; [exact B|].
+    intros s1 t H. inversion H; subst s1 t. destruct (C s' imR icR eq_refl) as [C1 C2]. subst. reflexivity.
+  - cbn [fst snd]. split; [exact A|]. split; [exact B|]. intros s1 t H. discriminate.
+Qed.
